@@ -448,6 +448,12 @@ func c18Fixed(c *Ctx) {
 		{name: "handler-fault/after-returned-call", files: map[string]string{"main.zn": "如何丙？\n\t令Z = 1\n\t令W = Z / 0\n\n如何乙？\n\t令Y = 1 / 0\n\n如何甲？\n\t令X = 1\n\t（乙）\n\t令X2 = 1\n\t拦截异常：\n\t\t令Q = 1\n\t\t（丙）\n\n令A = 1\n（甲）\n"}, accept: [][]fr{{{M, 17}, {M, 14}, {M, 3}}}},
 		{name: "handler-fault/handler-name-is-no-identifier", files: map[string]string{"main.zn": "如何乙？\n\t令K = 1\n\t令Y = 1 / 0\n\n如何甲？\n\t令K = 1\n\t（乙）\n\n\t拦截1异常：\n\t\t输出5\n\n令A = 1\n（甲）\n"}, accept: [][]fr{{{M, 13}, {M, 7}}, {{M, 13}, {M, 9}}}},
 		{name: "handler-fault/in-handler-of-handler-caller", files: map[string]string{"main.zn": "如何乙？\n\t令Y = 1 / 0\n\n\t拦截异常：\n\t\t令丁 = 【1】#5\n\n如何甲？\n\t（乙）\n\n\t拦截异常：\n\t\t令戊 = 1\n\t\t令己 = 戊 / 0\n\n令A = 1\n（甲）\n"}, accept: [][]fr{{{M, 15}, {M, 12}}}},
+		{name: "mixed-line-ends/crlf-then-lf-lf", files: map[string]string{"main.zn": "令甲 = 1\r\n\n\n令乙 = ~1\n"}, accept: [][]fr{{{M, 4}}}, syntax: true, caretAt: ""},
+		{name: "mixed-line-ends/lf-then-crlf-crlf", files: map[string]string{"main.zn": "令甲 = 1\n令乙 = 2\r\n\r\n令丙 = ~1\r\n"}, accept: [][]fr{{{M, 4}}}, syntax: true, caretAt: ""},
+		{name: "mixed-line-ends/cr-then-lf-lf", files: map[string]string{"main.zn": "令甲 = 1\r令乙 = 2\n\n令丙 = 】\n"}, accept: [][]fr{{{M, 4}}}, syntax: true, caretAt: ""},
+		{name: "mixed-line-ends/crlf-lf-lf-lf-crlf", files: map[string]string{"main.zn": "令甲 = 1\r\n\n\n\n\r\n令乙 = 2\n令丙 = ~1\n"}, accept: [][]fr{{{M, 7}}}, syntax: true, caretAt: ""},
+		{name: "mixed-line-ends/runtime-fault", files: map[string]string{"main.zn": "令甲 = 1\r\n\n\n令乙 = 甲 / 0\n"}, accept: [][]fr{{{M, 4}}}},
+		{name: "mixed-line-ends/runtime-fault-in-call", files: map[string]string{"main.zn": "如何坏？\r\n\t令乙 = 1 / 0\r\n\n\n令子 = 1\n（坏）\r\n"}, accept: [][]fr{{{M, 6}, {M, 2}}}},
 		{name: "syntax/indent-two-spaces", files: map[string]string{"main.zn": "令甲 = 1\n如果 甲 == 1：\n  令乙 = 2\n令丙 = 3\n"}, accept: [][]fr{{{M, 3}}}, syntax: true, caretAt: ""},
 		{name: "syntax/indent-six-spaces-later", files: map[string]string{"main.zn": "如果 真：\n    令甲 = 1\n    令乙 = 2\n如果 真：\n      令丙 = 3\n令丁 = 4\n"}, accept: [][]fr{{{M, 5}}}, syntax: true, caretAt: ""},
 		{name: "syntax/indent-tab-in-space-file", files: map[string]string{"main.zn": "如果 真：\n    令甲 = 1\n如果 真：\n\t令乙 = 2\n"}, accept: [][]fr{{{M, 4}}}, syntax: true, caretAt: ""},
